@@ -97,6 +97,14 @@ func checkList(prop, tier string) {
 		}
 		cases = append(cases, listCase(prop, fmt.Sprintf("c%d", i+1), t))
 	}
+	if prop == "C13" {
+		// an element type with its own, well-behaved but not field-wise, Compare method:
+		// Sort, Min and Max must follow derived Compare, which delegates to it
+		uo := &Ty{Expr: "UOrd", Kind: "struct", Comparable: true, Flags: map[string]bool{"userord": true}}
+		for i, t := range []*Ty{uo, ptrOf(uo), sliceOf(uo)} {
+			cases = append(cases, listCase(prop, fmt.Sprintf("u%d", i+1), t))
+		}
+	}
 	env := []string{"VERIF_ELEMK=3", "VERIF_FUEL=3", "VERIF_LISTLEN=3", "VERIF_ULISTLEN=5"}
 	if tier == "thorough" {
 		env = []string{"VERIF_ELEMK=3", "VERIF_FUEL=3", "VERIF_LISTLEN=4", "VERIF_ULISTLEN=6"}
